@@ -939,19 +939,19 @@ def make_replay_directional(fname):
 
     def one(inputs, tk, dk, D, Dvec, e):
         g = lambda k, default: inputs.get(k, default)
-        P = [float(c) for c in g("X.position", [0, 0, 0])]
+        P = [_clamp(c, -1e4, 1e4) for c in g("X.position", [0, 0, 0])]
         by = ""
         if dk == "scalar":
             by = f" by {D!r}"
         elif dk == "vector":
             by = f" by {_tup(Dvec)}"
-        nw, nl, nh = (abs(float(g(f"new.{d}", 1.0))) or 1.0 for d in ("width", "length", "height"))
-        ct = abs(float(g("new.contactTolerance", 0.5))) or 0.5
+        nw, nl, nh = (_clamp(abs(float(g(f"new.{d}", 1.0))) or 1.0, 0.05, 50) for d in ("width", "length", "height"))
+        ct = _clamp(abs(float(g("new.contactTolerance", 0.5))) or 0.5, 1e-3, 10)
         common = "with allowCollisions True, with requireVisible False"
         dims = (0, 0, 0)
         new_or = ""
         if tk == "Object":
-            dims = tuple(abs(float(g(f"X.{d}", 2.0))) or 1.0 for d in ("width", "length", "height"))
+            dims = tuple(_clamp(abs(float(g(f"X.{d}", 2.0))) or 1.0, 0.05, 50) for d in ("width", "length", "height"))
             decl = f"X = new Object at {_tup(P)}, facing {_tup(e)}, with width {dims[0]}, with length {dims[1]}, with height {dims[2]}, {common}\n"
         elif tk == "OrientedPoint":
             decl = f"X = new OrientedPoint at {_tup(P)}, facing {_tup(e)}\n"
@@ -984,8 +984,8 @@ def make_replay_directional(fname):
 
     def replay(inputs, clause):
         tk, dk = inputs.get("case", "Object/none").split("/")
-        Ds = [float(inputs.get("D", 1.5)), 1.5, -0.25]
-        Dvecs = [[float(c) for c in inputs.get("Dvec", [1.0, 2.0, 3.0])], [1.0, 2.0, 3.0]]
+        Ds = [_clamp(inputs.get("D", 1.5), -100, 100), 1.5, -0.25]
+        Dvecs = [[_clamp(c, -100, 100) for c in inputs.get("Dvec", [1.0, 2.0, 3.0])], [1.0, 2.0, 3.0]]
         for k, e in enumerate(catalogue(clause)):
             r = one(inputs, tk, dk, Ds[min(k, len(Ds) - 1)] if k < len(Ds) else Ds[1], Dvecs[min(k, 1)], e)
             if r:
@@ -1297,8 +1297,14 @@ def _with_ego(ego, fn):
         ven.currentScenario = saved
 
 
+def _clamp(x, lo, hi):
+    x = float(x)
+    return lo if x < lo else hi if x > hi else x
+
+
 def _f3(inputs, key, default):
-    return [float(c) for c in inputs.get(key, default)]
+    # counter-models may contain astronomically large / tiny numbers; replays use the nearest tame values
+    return [_clamp(c, -1e4, 1e4) for c in inputs.get(key, default)]
 
 
 def register_frames(reg):
@@ -1818,7 +1824,7 @@ def register_local_frames(reg):
         env.vars.update(self=make_point(I, "self", "Object"))
 
     def real_obj(inputs, e):
-        dims = {d: abs(float(inputs.get(f"self.{d}", 2.0))) or 1.0 for d in ("width", "length", "height")}
+        dims = {d: _clamp(abs(float(inputs.get(f"self.{d}", 2.0))) or 1.0, 0.05, 50) for d in ("width", "length", "height")}
         return _real_object(_f3(inputs, "self.position", [1, 2, 3]), e, **dims), dims
 
     # ---------------------------------------------------------------- front / back / left / ... of Object
